@@ -166,6 +166,8 @@ def run(ctx):
         rows = vlib.read_tsv(os.path.join(ctx.run_dir, "c11.trees.tsv")) if ok else []
         items, streams, kinds = [], {}, {}
         for r in rows:
+            if r[0] == "#SIZES":
+                cov["tree_sizes(nodes:count)"] = r[1]
             if len(r) >= 5 and r[1] == "TREE":
                 items.append((r[0], r[4], r[5] if len(r) > 5 else None))
                 streams[r[0]] = r[2]
@@ -207,7 +209,9 @@ def run(ctx):
                 n_oracle_ok += 1
             elif r["wf"]:
                 fail_groups.setdefault(cid, []).append((variant, real))
-        if len(samples) < 4 and st in ("triples", "random", "parens") and size(t) >= 4:
+        want = {"triples": kinds[cid] == "prefix" and "(c " in tree, "random": size(t) >= 9, "parens": size(t) >= 5,
+                "pairs": kinds[cid] == "call1" and tree.startswith("(c (b")}.get(st, False)
+        if want and not any(s_["stream"] == st for s_ in samples):
             samples.append({"id": cid, "stream": st, "tree": tree, "text": r["text"],
                             "real_parse": r["real"].get("canon"), "model_parse": r["model"],
                             "trivia_source": r["src"].get("trivia", "")[:200]})
@@ -253,9 +257,15 @@ def run(ctx):
     n_lit = n_lit_ok = n_lit_tie = 0
     lit_classes = {}
     lit_samples = []
-    if not ctx.replay:
+    replay_spellings = None
+    if ctx.replay:
+        import json
+        replay_spellings = {c["spelling"] for c in json.load(open(ctx.replay)).get("cases", []) if "spelling" in c}
+    if not ctx.replay or replay_spellings:
         ok, out = ctx.gv("c11", ["lits"])
         lrows = [r for r in (vlib.read_tsv(os.path.join(ctx.run_dir, "c11.lits.tsv")) if ok else []) if len(r) >= 6 and r[1] == "LIT"]
+        if replay_spellings is not None:
+            lrows = [r for r in lrows if vlib.unesc(r[3]) in replay_spellings]
         mlines = []
         for r in lrows:
             body = r[6] if len(r) > 6 else ""
@@ -305,6 +315,7 @@ def run(ctx):
                 ctx.notes.append(f"{gold['differing']} golden stage dumps of the corpus differ from what the tree under test produces")
 
     n_str = sum(v for c, v in lit_classes.items() if c.startswith(('str-', 'mstr-')))
+    cov0 = cov
     cov = {
         "evaluations": n_eval, "distinct_nontrivial": len(distinct),
         "rule": "one evaluation = one rendering (canonical blanks / random trivia / glued) of one tree parsed by the real "
@@ -320,6 +331,7 @@ def run(ctx):
         "impl_oracle_failures": len(ctx.violations) + sum(h["count"] for h in ctx.known_hits),
         "model_diffs": (n_eval - n_lit - n_tie_ok) + (n_str - n_lit_tie),
     }
+    cov.update(cov0)
     ctx.assumptions += [
         "the lexer is not modelled here (C12): the model prints tokens, the harness joins them with blanks/trivia, and glues them "
         "only where the real lexer still yields the same token sequence",
